@@ -49,8 +49,20 @@ Nested == LET e == Log[l] r == e.res IN
                \/ (r.k = "member" /\ r \in outs)
                \/ (r.k = "leaf_error" /\ r.at = p /\ r.err \in outs)
 
+(* the dynamic list (DynWeighted) of real selectors; weights are logged as  *)
+(* 0 / positive, and whether their sum overflows the machine word            *)
+Dyn == LET e == Log[l] r == e.res
+           positive == {j \in 1..Len(e.leaves) : e.leaves[j].w > 0} IN
+  /\ e.ev = "dyn"
+  /\ IF positive = {} THEN r.k = "weight_error"
+     ELSE IF e.overflow THEN r.k \in {"weight_error", "member", "leaf_error"}   \* never a panic
+     ELSE \E j \in positive :
+            LET outs == LeafOutcomes(e.pop, e.leaves[j]) IN
+            \/ (r.k = "member" /\ r \in outs)
+            \/ (r.k = "leaf_error" /\ r.err \in outs)
+
 TraceInit == l = 1
-TraceNext == l <= Len(Log) /\ l' = l + 1 /\ (Select \/ Nested)
+TraceNext == l <= Len(Log) /\ l' = l + 1 /\ (Select \/ Nested \/ Dyn)
 TraceSpec == TraceInit /\ [][TraceNext]_l
 TraceAccepted ==
   LET d == TLCGet("stats").diameter IN
